@@ -137,6 +137,20 @@ def _required_classes():
     req += ['statmech:refs', 'statmech:norefs', 'statmech:misc', 'statmech:nomisc',
             'Shomate:gas', 'Shomate:surface', 'Shomate:cov', 'Nasa:gas', 'Nasa:cov', 'Nasa9:gas', 'Nasa9:cov',
             'rxn:statmech', 'rxn:empirical', 'rxn:mixed', 'rxn:ts', 'rxn:cov']
+    # compositions with a per-mass unit, per class that has `elements`
+    for cl in ('StatMech', 'Nasa', 'Nasa9', 'Shomate'):
+        req += ['comp:%s:%s' % (cl, t) for t in ('fractional', 'zero', 'zero_before_present', 'numpy')]
+    # single options on the getters they act on (main evaluation or option sweep)
+    for cl in ('Nasa', 'Nasa9', 'Shomate'):
+        req += ['og:%s.%s:%s' % (cl, g, o) for g in ('get_S', 'get_G') for o in ('S_elements', 'P')]
+        req += ['og:%s.get_H:x' % cl]
+    req += ['og:StatMech.%s:S_elements' % g for g in ('get_S', 'get_F', 'get_G')]
+    req += ['og:StatMech.%s:%s' % (g, o) for g in ('get_H', 'get_G') for o in ('use_references', 'verbose', 'x')]
+    req += ['og:StatMech.get_E:include_ZPE']
+    for r in ('Reaction', 'ChemkinReaction', 'SurfaceReaction'):
+        req += ['og:%s.get_E_act:del_m=%s' % (r, v) for v in ('None', '1', '0', '-1')]
+        req += ['og:%s.%s:rev' % (r, g) for g in ('get_H_act', 'get_G_act', 'get_delta_H', 'get_delta_G', 'get_S_act')]
+        req += ['og:%s.%s:act' % (r, g) for g in ('get_delta_H', 'get_delta_G', 'get_delta_S')]
     return req
 
 
@@ -234,9 +248,51 @@ def gen_mode(rng, mcls):
     return gen_constant_mode(rng)
 
 
+FRACTIONS = [0.5, 0.2, 1.8, 0.25, 0.75, 1.5, 2.5, 3.3, 0.1, 0.999, 7.05]
+
+
+def hostile_elements(rng, elements, style=None, el_type=None):
+    """Compositions as they occur outside formula strings: non-integer counts (CH1.8O0.5N0.2, per-atom
+    oxides), explicit zero counts at any position of the dict (one column per element of a data set),
+    counts typed as NumPy scalars.  -> (ordered dict, style tags, type of the counts)"""
+    style = style or rng.choice(['int', 'int', 'fractional', 'fractional', 'zero', 'zero', 'fractional+zero'])
+    items = [[e, n] for e, n in elements.items()]
+    tags = []
+    if 'fractional' in style:
+        idx = rng.sample(range(len(items)), rng.randint(1, len(items)))
+        for i in idx:
+            items[i][1] = rng.choice(FRACTIONS) if rng.random() < 0.7 else round(rng.uniform(0.05, 6.0), 3)
+        if all(float(n) == int(n) for _, n in items):
+            items[idx[0]][1] = 1.8
+        tags.append('fractional')
+    if 'zero' in style:
+        absent = [e for e in S.ELEMENT_POOL if e not in elements]
+        for e in rng.sample(absent, rng.choice([1, 1, 2, 3])):
+            pos = 0 if style.endswith('first') else rng.randint(0, len(items))
+            items.insert(pos, [e, 0])
+        tags.append('zero')
+        if min(i for i, (_, n) in enumerate(items) if n == 0) < max(i for i, (_, n) in enumerate(items) if n != 0):
+            tags.append('zero_before_present')
+    fractional = any(float(n) != int(n) for _, n in items)
+    el_type = el_type or rng.choice(['py', 'py', 'np_float', 'np_float' if fractional else 'np_int'])
+    if el_type == 'np_int' and fractional:
+        el_type = 'np_float'
+    if el_type != 'py':
+        tags.append('numpy')
+    return {e: n for e, n in items}, tags, el_type
+
+
+def typed_elements(elements, el_type):
+    import numpy as np
+    if not elements or el_type in (None, 'py'):
+        return dict(elements) if elements else elements
+    conv = np.int64 if el_type == 'np_int' else np.float64
+    return {e: conv(n) for e, n in elements.items()}
+
+
 def gen_refs(rng, elements):
     refs = []
-    els = sorted(elements)
+    els = sorted(e for e, n in elements.items() if n)
     comps = [{e: 2} for e in els]
     if len(els) > 1:
         comps.append({e: rng.randint(1, 3) for e in els})
@@ -291,6 +347,10 @@ def gen_case(rng, tier, kind=None, units=None, force_opts=None, **fix):
         sp = S.gen_statmech(rng, name=name, gas=rng.choice([True, False, None]), with_elements=with_el)
         spec['cls'] = 'StatMech'
         spec['obj'] = sp
+        spec['el_tags'], spec['el_type'] = [], 'py'
+        if with_el:
+            sp['elements'], spec['el_tags'], spec['el_type'] = hostile_elements(
+                rng, sp['elements'], fix.get('el_style'), fix.get('el_type'))
         want_refs = fix.get('refs', rng.random() < 0.5)
         spec['refs'] = gen_refs(rng, sp['elements']) if (with_el and want_refs) else None
         misc = []
@@ -328,8 +388,12 @@ def gen_case(rng, tier, kind=None, units=None, force_opts=None, **fix):
         if phase is None:
             sp.pop('phase', None)
         with_el = fix.get('with_elements', rng.random() < 0.9)
+        spec['el_tags'], spec['el_type'] = [], 'py'
         if not with_el:
             sp['elements'] = None
+        else:
+            sp['elements'], spec['el_tags'], spec['el_type'] = hostile_elements(
+                rng, sp['elements'], fix.get('el_style'), fix.get('el_type'))
         spec['cls'] = sp['type']
         spec['obj'] = sp
         want_cov = fix.get('cov', rng.random() < 0.5)
@@ -365,7 +429,7 @@ def gen_case(rng, tier, kind=None, units=None, force_opts=None, **fix):
     if fix.get('cov', rng.random() < 0.35):
         on = rng.choice(names)
         spec['cov'] = dict(gen_cov(rng, on, rng.choice(names)), on=on)
-    app = {'P': _P, 'rev': lambda q: True, 'S_elements': lambda q: True, 'del_m': lambda q: q.choice([0, 2, None]),
+    app = {'P': _P, 'rev': lambda q: True, 'S_elements': lambda q: True, 'del_m': lambda q: fix['del_m'] if 'del_m' in fix else q.choice([None, None, 0, -1, 2, 1]),
            'P_block': lambda q: {'name': q.choice(names), 'P': _P(q)}}
     if nts:
         app['act'] = lambda q: True
@@ -414,6 +478,14 @@ def directed(tier):
                           T_kind='array', with_elements=True))
         D.append(gen_case(R(k + '4'), tier, k, units='ALL', force_opts=['x'], phase='S', cov=True,
                           T_kind='scalar', with_elements=True))
+    # compositions: fractional counts, explicit zero counts (first / anywhere), NumPy-typed counts
+    for k in ('statmech', 'nasa', 'nasa9', 'shomate'):
+        kw = dict(refs=False, misc=False) if k == 'statmech' else dict(phase='G', cov=False, T_kind='scalar')
+        for j, (st, et, fo) in enumerate((('fractional', 'py', []), ('fractional', 'np_float', ['S_elements']),
+                                          ('zero_first', 'py', []), ('zero', 'np_int', ['S_elements']),
+                                          ('fractional+zero', 'np_float', ['P']), ('int', 'np_int', []))):
+            D.append(gen_case(R('comp%d%s' % (j, k)), tier, k, units='ALL', force_opts=fo, with_elements=True,
+                              el_style=st, el_type=et, **kw))
     for rc, fl in (('Reaction', 'statmech'), ('Reaction', 'mixed'), ('Reaction', 'empirical'),
                    ('ChemkinReaction', 'empirical'), ('SurfaceReaction', 'empirical')):
         D.append(gen_case(R('rx0' + rc + fl), tier, 'reaction', units='ALL', force_opts=[], rcls=rc, flavor=fl, ts=True,
@@ -425,7 +497,11 @@ def directed(tier):
         D.append(gen_case(R('rx3' + rc + fl), tier, 'reaction', units='ALL', force_opts=['x', 'P_block'], rcls=rc,
                           flavor=fl, ts=True, cov=True))
         D.append(gen_case(R('rx4' + rc + fl), tier, 'reaction', units='ALL',
-                          force_opts=['del_m', 'include_ZPE', 'S_elements'], rcls=rc, flavor=fl, ts=True, cov=False))
+                          force_opts=['del_m', 'include_ZPE', 'S_elements'], rcls=rc, flavor=fl, ts=True, cov=False,
+                          del_m=None))
+        for j, dm in enumerate((None, 0, -1, 1)):
+            D.append(gen_case(R('rx5%d%s%s' % (j, rc, fl)), tier, 'reaction', units='ALL', force_opts=['del_m'], rcls=rc,
+                              flavor=fl, ts=True, cov=False, del_m=dm))
     return D
 
 
@@ -464,14 +540,18 @@ class Subject:
         elif k == 'statmech':
             misc = [build_misc(m) for m in spec['misc']] or None
             refs = build_refs(spec['refs']) if spec.get('refs') else None
-            self.obj = S.build_statmech(spec['obj'], references=refs, misc_models=misc)
+            self.obj = S.build_statmech(dict(spec['obj'], elements=typed_elements(spec['obj'].get('elements'),
+                                                                                   spec.get('el_type'))),
+                                        references=refs, misc_models=misc)
             self.getters = species_getters('statmech')
             self.comp = spec['obj'].get('elements')
             self.tags = ['statmech:refs' if refs is not None else 'statmech:norefs',
                          'statmech:misc' if misc else 'statmech:nomisc']
         elif k in ('nasa', 'nasa9', 'shomate'):
             misc = [build_misc(m) for m in spec['misc']]
-            self.obj = S.build(spec['obj'], **({'misc_models': misc} if misc else {}))
+            self.obj = S.build(dict(spec['obj'], elements=typed_elements(spec['obj'].get('elements'),
+                                                                          spec.get('el_type'))),
+                               **({'misc_models': misc} if misc else {}))
             self.getters = species_getters(k)
             self.comp = spec['obj'].get('elements')
             ph = (spec['obj'].get('phase') or '').lower()
@@ -521,6 +601,30 @@ class Subject:
 
     def present(self, g, opts):
         return sorted(o for o in opts if o in g['opts'])
+
+    def sweep_values(self, g, opts):
+        """every single option this getter knows, at a fixed non-default value, that the drawn option set
+        does not already contain (so each case covers each option on each getter once)"""
+        k, sp = self.kind, self.spec
+        cand = [('P', 7.3)]
+        if k == 'statmech':
+            cand += [('verbose', True), ('include_ZPE', True)]
+            if any(m['type'] == 'PiecewiseCovEffect' for m in sp['misc']):
+                cand.append(('x', 0.37))
+            if sp.get('refs'):
+                cand.append(('use_references', False))
+        elif k in ('nasa', 'nasa9', 'shomate') and sp['misc']:
+            cand.append(('x', 0.37))
+        elif k == 'reaction':
+            cand += [('rev', True), ('S_elements', True), ('include_ZPE', True)]
+            if self.has_ts:
+                cand.append(('act', True))
+        if k != 'reaction' and self.comp:
+            cand.append(('S_elements', True))
+        out = [(o, v) for o, v in cand if o in g['opts'] and o not in opts]
+        if 'del_m' in g['opts']:
+            out += [('del_m', v) for v in (None, 1, 0, -1) if not ('del_m' in opts and opts['del_m'] == v)]
+        return out
 
     def applicable(self, g):
         if g.get('needs_ts') and not self.has_ts:
@@ -640,6 +744,10 @@ def blame(subj, g, T, opts, unit, ctx):
     return '+'.join(culprits) if culprits else '+'.join(present)
 
 
+def og_label(subj, g, o, v):
+    return 'og:%s.%s:%s' % (subj.cls, g['name'], ('del_m=%s' % v) if o == 'del_m' else o)
+
+
 def r_ok(c, base):
     """is the unit string accepted by pMuTT's table at all? (a rejected one cannot be driven further)"""
     try:
@@ -663,7 +771,10 @@ def run_case(spec, ctx):
         units = list(MOLAR + PER_MOLECULE + (PER_MASS if subj.comp else []))
     units = [u for u in units if unit_info(u)[0] != 'per_mass' or subj.comp]
     ctx.cls(*subj.tags)
+    if subj.comp and any(unit_info(u)[0] == 'per_mass' for u in units):
+        ctx.cls(*['comp:%s:%s' % (subj.cls, t) for t in spec.get('el_tags', [])])
     tk = t_kind(T)
+    n_sweep = 0
     ctx.nontrivial(bool(opts) or any(unit_info(u)[0] == 'per_mass' for u in units))
     x = ctx.extra
     # ---- the table itself: R(u) of pMuTT against the SI value
@@ -708,6 +819,8 @@ def run_case(spec, ctx):
             ctx.cls('cg:%s.%s' % (subj.cls, g['name']), 'unit:' + u, 'family:' + fam, 'T:' + tk)
             for o in (present or ['none']):
                 ctx.cls('opt:' + o)
+            for o in present:
+                ctx.cls(og_label(subj, g, o, opts[o]))
             if st == 'exc':
                 all_ok = False
                 if fam not in first_fail_label:
@@ -752,6 +865,34 @@ def run_case(spec, ctx):
                     ctx.max_err['U2_si'] = e_si
             else:
                 ctx.fail('U2', m, err=e, err_si=e_si, u1=u1, u2=u2, got1=d1, got2=d2, options=opts)
+        # ---- option sweep: every single option of this getter that the drawn set lacks, one unit each
+        if units and 'none' not in first_fail_label.values():
+            for o, v in subj.sweep_values(g, opts):
+                evs = Eval(subj, g, T, dict(opts, **{o: v}), ctx)
+                if evs.twin_exc is not None or not evs.finite:
+                    x['twin_raised_sweep'] = x.get('twin_raised_sweep', 0) + 1
+                    continue
+                u = units[n_sweep % len(units)]
+                n_sweep += 1
+                fam, fp, fs = factor(u, subj.comp)
+                if fam in first_fail_label:
+                    continue                               # this family already fails with the drawn options
+                ctx.cls(og_label(subj, g, o, v), 'opt:' + o)
+                m = dict(base_mech, unit_family=fam, option=o, clause='U1')
+                st, d = evs.dim(u)
+                if st == 'exc':
+                    ctx.fail('U1', dict(m, exc=type(d).__name__), message=str(d)[:300], where=core._tb_where(d),
+                             unit=call_unit(g, u), options=evs.opts)
+                    continue
+                want = evs.want(fp)
+                e = rel_err(ctx, d, want)
+                if e <= TOL1:
+                    ctx.held('U1')
+                    if e > ctx.max_err.get('U1', 0.0):
+                        ctx.max_err['U1'] = e
+                else:
+                    ctx.fail('U1', m, err=e, tol=TOL1, got=d, want=want, unit=call_unit(g, u), options=evs.opts,
+                             dimensionless=evs.w, swept=[o, v])
         # ---- U3: each option on its own moves both forms identically (first drawn unit)
         if units and T is not None:
             u = units[0]
